@@ -83,6 +83,31 @@ def c18_idempotent(line):
     return out
 
 
+def c18_idempotent_seq(lines):
+    """Idempotence of normalisation on parser objects that are re-used from line to line."""
+    out = []
+    p = impl.GcodeParser()
+    q = impl.GcodeParser()
+    try:
+        for line in lines:
+            p.parse(line)
+            cs = p.commandString
+            a = (p.gcode, p.subCode, p.parameters, cs)
+            q.parse(cs)
+            b = (q.gcode, q.subCode, q.parameters, q.commandString)
+            if a != b:
+                out.append("after %r: parse(%r) = %r but re-parsing its commandString gives %r" % (lines, line, a, b))
+                break
+            fresh = impl.GcodeParser().parse(line)
+            c = (fresh.gcode, fresh.subCode, fresh.parameters, fresh.commandString)
+            if a != c:
+                out.append("parse(%r) on a used parser gives %r, on a fresh parser %r" % (line, a, c))
+                break
+    except Exception as exc:  # pylint: disable=broad-except
+        out.append("exception %s: %s" % (type(exc).__name__, exc))
+    return out
+
+
 # --------------------------------------------------------------------------- C19
 
 def c19_reader(params):
@@ -155,8 +180,8 @@ def c20_stream(cfg, pre_events, lines):
             out.append((idx, "process_line raised %s: %s" % (type(exc).__name__, exc)))
             break
         pl = impl.GcodeParser().parse(line)
-        if eol is None and pl.eol:
-            eol = pl.eol
+        if pl.eol:
+            eol = pl.eol      # the processor follows the most recent line ending
         kind, cmd, r = live_result(twin, line)
         use = eol or "\n"
         if kind == "other" or r[0] == "none" or (kind == "at" and r[0] == "at" and not r[1]):
@@ -169,7 +194,7 @@ def c20_stream(cfg, pre_events, lines):
             want = (use.join(r[2]) + use) if r[2] else None
         else:
             want = ("ERR", r)
-        exact = kind == "other" or r[0] in ("none", "ignore") or r[0] == "at"
+        exact = (want is None) or (want == line) or isinstance(want, tuple)
         if want != got and (exact or not _same_modulo_indent(want, got, use)):
             out.append((idx, "process_line(%r) = %r, live hooks give %r" % (line, got, want)))
     after = impl.state_digest(live.state)
